@@ -3,14 +3,15 @@ import JediModel.Lemmas.ObjModel
 /-! # C13 — Interpreter reflects live objects; safe mode runs no user descriptors
 
 Property theorems only.  The model (`Model/ObjModel`) is instantiated with the tables and guard
-expressions the translator extracted from the source (`Gen.C13`).  Three facts about the shape of
-the source decide whether the FULL statement can hold at all; they are flags of the configuration
-(`cfgWith meta hasIter bool`), the translator reports their current values and the theorems are
-stated for both values, so that they stay checkable before and after a fix:
+expressions the translator extracted from the source (`genCfg`, `Model/ObjCfg`); the hand-written
+parts of the model (`getattrStatic`, `hasIter`, `pyIterList`) transcribe functions whose exact
+shape the translator checks (TieBroken otherwise).
 
-* `metaHitReportsGet`  — `getattr_static` reports `__get__` of a hit found on the metaclass
-* `hasIterExecutes`    — `has_iter` calls `iter(obj)`
-* `boolExecutes`       — `py__bool__` calls `bool(obj)` -/
+All statements are FULL.  The three defects that used to restrict them — a data descriptor of the
+metaclass shadowing a class attribute in `getattr_static`, `has_iter` calling `iter(obj)`,
+`py__bool__` calling `bool(obj)` on any object — are repaired in the source; the inputs that were
+kernel-checked counter-witnesses are now kernel-checked witnesses of the repaired behaviour
+(`…_meta_shadow_refused`, `…_user_iter_not_run`, `…_user_bool_len_not_run`). -/
 namespace JediModel.Props.C13
 open JediModel.ObjModel
 open JediModel.Gen
@@ -24,8 +25,8 @@ def builtinContainers : List String :=
 /-- `getattr_static` hands out objects stored in the instance `__dict__`, in a class `__dict__`
 along the MRO, or in a metaclass `__dict__` — never the result of a `__get__` call.  (In the
 model the function has no trace component at all: it only reads dictionaries.) -/
-theorem static_lookup_is_static (cfg : Cfg) (t : Target) (a : String) (e : Entry) (g : Bool)
-    (h : getattrStatic cfg t a = some (e, g)) :
+theorem static_lookup_is_static (t : Target) (a : String) (e : Entry) (g : Bool)
+    (h : getattrStatic t a = some (e, g)) :
     e.name = a ∧ ((∃ d, t.inst = some d ∧ e ∈ d) ∨ (∃ d ∈ t.mro, e ∈ d) ∨ (∃ d ∈ t.metaMro, e ∈ d)) := by
   unfold getattrStatic at h
   simp only at h
@@ -42,50 +43,51 @@ theorem static_lookup_is_static (cfg : Cfg) (t : Target) (a : String) (e : Entry
           simp only [hd, Option.bind_some] at hi
           exact ⟨(findIn_mem hi).2, d, rfl, (findIn_mem hi).1⟩
       · cases hi
+  have hmeta : ∀ m, (if t.isType = true then mroLookup t.metaMro a else none) = some m →
+      m.name = a ∧ ∃ d ∈ t.metaMro, m ∈ d := by
+    intro m hm
+    split at hm
+    · exact ⟨(mroLookup_mem hm).2, (mroLookup_mem hm).1⟩
+    · cases hm
+  have hklass : ∀ k, mroLookup t.mro a = some k → k.name = a ∧ ∃ d ∈ t.mro, k ∈ d :=
+    fun k hk => ⟨(mroLookup_mem hk).2, (mroLookup_mem hk).1⟩
   generalize (if t.isType = true then none
-      else if instanceDictReadable t.mro = true then t.inst.bind fun x => findIn x a else none) = instR at h hinst
-  cases instR with
-  | some i =>
-    have hi' := hinst i rfl
-    cases hk : mroLookup t.mro a with
-    | some k =>
-      have hk' := mroLookup_mem hk
-      simp only [hk] at h
-      split at h <;> cases h
-      · exact ⟨hk'.2, Or.inr (Or.inl hk'.1)⟩
-      · exact ⟨hi'.1, Or.inl hi'.2⟩
-    | none =>
-      simp only [hk] at h
-      cases h
-      exact ⟨hi'.1, Or.inl hi'.2⟩
-  | none =>
-    cases hk : mroLookup t.mro a with
-    | some k =>
-      have hk' := mroLookup_mem hk
-      simp only [hk] at h
-      cases h
-      exact ⟨hk'.2, Or.inr (Or.inl hk'.1)⟩
-    | none =>
-      simp only [hk] at h
-      split at h
-      · cases hm : mroLookup t.metaMro a with
-        | none => simp [hm] at h
-        | some m =>
-          simp only [hm, Option.map_some, Option.some.injEq, Prod.mk.injEq] at h
-          have hm' := mroLookup_mem hm
-          rw [← h.1]
-          exact ⟨hm'.2, Or.inr (Or.inr hm'.1)⟩
-      · cases h
+      else if instanceDictReadable t.mro = true then t.inst.bind fun x => findIn x a else none) = instR
+    at h hinst
+  generalize (if t.isType = true then mroLookup t.metaMro a else none) = metaR at h hmeta
+  generalize mroLookup t.mro a = klassR at h hklass
+  have fin_i : ∀ i, instR = some i → e = i →
+      e.name = a ∧ ((∃ d, t.inst = some d ∧ e ∈ d) ∨ (∃ d ∈ t.mro, e ∈ d) ∨ (∃ d ∈ t.metaMro, e ∈ d)) :=
+    fun i hi he => by subst he; exact ⟨(hinst _ hi).1, Or.inl (hinst _ hi).2⟩
+  have fin_k : ∀ k, klassR = some k → e = k →
+      e.name = a ∧ ((∃ d, t.inst = some d ∧ e ∈ d) ∨ (∃ d ∈ t.mro, e ∈ d) ∨ (∃ d ∈ t.metaMro, e ∈ d)) :=
+    fun k hk he => by subst he; exact ⟨(hklass _ hk).1, Or.inr (Or.inl (hklass _ hk).2)⟩
+  have fin_m : ∀ m, metaR = some m → e = m →
+      e.name = a ∧ ((∃ d, t.inst = some d ∧ e ∈ d) ∨ (∃ d ∈ t.mro, e ∈ d) ∨ (∃ d ∈ t.metaMro, e ∈ d)) :=
+    fun m hm he => by subst he; exact ⟨(hmeta _ hm).1, Or.inr (Or.inr (hmeta _ hm).2)⟩
+  cases instR <;> cases klassR <;> cases metaR <;> simp only [Option.map_some, Option.map_none] at h
+  all_goals first
+    | (cases h; done)
+    | (simp only [Option.some.injEq, Prod.mk.injEq] at h
+       first
+        | exact fin_i _ rfl h.1.symm
+        | exact fin_k _ rfl h.1.symm
+        | exact fin_m _ rfl h.1.symm)
+    | (split at h <;> (try split at h) <;> simp only [Option.some.injEq, Prod.mk.injEq] at h <;>
+        first
+        | exact fin_i _ rfl h.1.symm
+        | exact fin_k _ rfl h.1.symm
+        | exact fin_m _ rfl h.1.symm)
 
-example : getattrStatic genCfg
+example : getattrStatic
     { isType := false, inst := some [⟨"x", .plain, 1⟩], mro := [[⟨"x", .prop false, 2⟩]], metaMro := [] } "x"
     = some (⟨"x", .prop false, 2⟩, true) := by decide
 
 /-- For instances the static lookup chooses exactly the entry CPython's `getattr` chooses
 (`hd`: the instance `__dict__` is not shadowed by a class attribute named `__dict__`). -/
-theorem static_agrees_on_entry (cfg : Cfg) (t : Target) (a : String)
+theorem static_agrees_on_entry (t : Target) (a : String)
     (hi : t.isType = false) (hd : instanceDictReadable t.mro = true) :
-    (getattrStatic cfg t a).map (·.1) = (pyGetattr t a).found := by
+    (getattrStatic t a).map (·.1) = (pyGetattr t a).found := by
   unfold getattrStatic pyGetattr pyGetattrInstance
   simp only [hi, hd, if_true, Bool.false_eq_true, if_false]
   cases hk : mroLookup t.mro a <;> cases hin : t.inst.bind (findIn · a) <;>
@@ -100,61 +102,70 @@ theorem static_agrees_on_entry (cfg : Cfg) (t : Target) (a : String)
 example : instanceDictReadable [[⟨"p", .getData, 2⟩], [⟨"__dict__", .builtinDescr "getset_descriptor" true, 3⟩]]
     = true := by decide
 
-/-- For classes the same holds when no *data descriptor of the metaclass* carries the name. -/
-theorem static_agrees_on_entry_class_partial (cfg : Cfg) (t : Target) (a : String)
-    (hi : t.isType = true)
-    (hm : ∀ m, mroLookup t.metaMro a = some m → (m.tag.hasGet && m.tag.hasSet) = false) :
-    (getattrStatic cfg t a).map (·.1) = (pyGetattr t a).found := by
+/-- FULL for classes: the static lookup chooses exactly the entry `type.__getattribute__`
+chooses — class attribute, base class attribute, metaclass attribute, and the metaclass data
+descriptor that takes priority over a class attribute of the same name. -/
+theorem static_agrees_on_entry_class (t : Target) (a : String) (hi : t.isType = true) :
+    (getattrStatic t a).map (·.1) = (pyGetattr t a).found := by
   unfold getattrStatic pyGetattr pyGetattrType
   simp only [hi, if_true]
   cases hk : mroLookup t.mro a <;> cases hmm : mroLookup t.metaMro a
   · simp [GetResult.miss]
   · rename_i m
-    have := hm m hmm
-    cases hg : m.tag.hasGet <;> simp_all [GetResult.direct, GetResult.invoke]
+    cases hg : m.tag.hasGet <;> cases hs : m.tag.hasSet <;> simp [hg, hs, GetResult.direct, GetResult.invoke]
   · rename_i k
     cases hg : k.tag.hasGet <;> simp [hg, GetResult.direct, GetResult.invokeNoInstance]
   · rename_i k m
-    have := hm m hmm
-    cases hg : k.tag.hasGet <;> cases hg2 : m.tag.hasGet <;>
-      simp_all [GetResult.direct, GetResult.invokeNoInstance]
+    cases hg : k.tag.hasGet <;> cases hg2 : m.tag.hasGet <;> cases hs : m.tag.hasSet <;>
+      simp [hg, hg2, hs, GetResult.direct, GetResult.invoke, GetResult.invokeNoInstance]
 
-/- FULL (false, see witness): `static_agrees_on_entry` for classes without `hm`. -/
-/-- counter-witness: class attribute `p = 1`, metaclass property `p`: `getattr(A, 'p')` runs the
-metaclass property, the static lookup answers the class attribute. -/
-theorem static_agrees_on_entry_class_counter :
-    ∃ (t : Target) (a : String), t.isType = true ∧
-      (getattrStatic genCfg t a).map (·.1) ≠ (pyGetattr t a).found :=
-  ⟨{ isType := true, inst := none, mro := [[⟨"p", .plain, 1⟩]], metaMro := [[⟨"p", .prop false, 2⟩]] },
-   "p", by decide⟩
+example : (pyGetattr
+    { isType := true, inst := none, mro := [[⟨"p", .plain, 1⟩]], metaMro := [[⟨"p", .getNonData, 2⟩]] }
+    "p").found = some ⟨"p", .plain, 1⟩ := by decide
+
+/-- the former counter-witness — class attribute `p = 1`, metaclass property `p` —:
+`getattr(A, 'p')` runs the metaclass property and the static lookup now answers that property,
+flagged as a get-descriptor. -/
+theorem static_agrees_on_entry_class_meta_shadow :
+    getattrStatic
+      { isType := true, inst := none, mro := [[⟨"p", .plain, 1⟩]], metaMro := [[⟨"p", .prop false, 2⟩]] }
+      "p" = some (⟨"p", .prop false, 2⟩, true) ∧
+    pyGetattr
+      { isType := true, inst := none, mro := [[⟨"p", .plain, 1⟩]], metaMro := [[⟨"p", .prop false, 2⟩]] }
+      "p" = ⟨some ⟨"p", .prop false, 2⟩, true, [2]⟩ := by
+  decide
 
 /-! ## safe mode runs no user `__get__` through attribute names -/
 
 /-- The decision table: in safe mode a *real* name (one whose inference is `getattr(obj, name)`)
 is produced only for an attribute that exists and is not flagged as a descriptor. -/
-theorem get_real_only_if_plain (m i b : Bool)
-    (has isDescr annP annV checkHas isInstance inDir d : Bool)
-    (h : filterGet (cfgWith m i b) has isDescr annP annV checkHas false isInstance inDir = .realName d) :
+theorem get_real_only_if_plain (has isDescr annP annV checkHas isInstance inDir d : Bool)
+    (h : filterGet genCfg has isDescr annP annV checkHas false isInstance inDir = .realName d) :
     has = true ∧ isDescr = false ∧ d = false := by
   cases has <;> cases isDescr <;> cases annP <;> cases annV <;> cases checkHas <;> cases isInstance <;>
     cases inDir <;>
-    simp [filterGet, cfgWith, C13.getAbsentCond, C13.getEmptyCond, C13.getNotInDirCond] at h ⊢ <;>
+    simp [filterGet, genCfg, C13.getAbsentCond, C13.getEmptyCond, C13.getNotInDirCond] at h ⊢ <;>
     first | exact h | exact h.symm
 
 example : filterGet genCfg true false false false true false true true = .realName false := by decide
 
+/-- an entry with a user `__get__` is flagged by `is_allowed_getattr` once the static lookup
+reports `__get__` for it -/
+theorem descriptorCond_of_userGet (k : Entry) (hk : k.tag.userGet = true) :
+    genCfg.isDescriptorCond k.tag.hasGet (typeIn genCfg.allowedDescr k.tag) = true := by
+  have hprop : C13.allowedDescriptorAccess.contains "property" = false := by decide
+  have h1 := Tag.hasGet_of_userGet hk
+  have h2 : typeIn C13.allowedDescriptorAccess k.tag = false := typeIn_of_userGet hk hprop
+  simp [genCfg, C13.isDescriptorCond, h1, h2]
+
+example : (⟨"p", .prop false, 2⟩ : Entry).tag.userGet = true := rfl
+
 /-- whenever CPython's lookup on an instance runs a user `__get__`, `is_allowed_getattr` flags the
 name as a descriptor (second component) — in either mode -/
-theorem flagged_of_trace (m i b : Bool) (t : Target) (a : String) (safe dynHas : Bool)
+theorem flagged_of_trace (t : Target) (a : String) (safe dynHas : Bool)
     (hi : t.isType = false) (h : (pyGetattr t a).trace ≠ []) :
-    (isAllowedGetattr (cfgWith m i b) t a safe dynHas).2.1 = true := by
-  have hprop : C13.allowedDescriptorAccess.contains "property" = false := by decide
-  have key : ∀ k : Entry, k.tag.userGet = true →
-      (cfgWith m i b).isDescriptorCond k.tag.hasGet (typeIn (cfgWith m i b).allowedDescr k.tag) = true := by
-    intro k hk
-    have h1 := Tag.hasGet_of_userGet hk
-    have h2 : typeIn C13.allowedDescriptorAccess k.tag = false := typeIn_of_userGet hk hprop
-    simp [cfgWith, C13.isDescriptorCond, h1, h2]
+    (isAllowedGetattr genCfg t a safe dynHas).2.1 = true := by
+  have key := descriptorCond_of_userGet
   unfold pyGetattr pyGetattrInstance at h
   unfold isAllowedGetattr getattrStatic
   simp only [hi, Bool.false_eq_true, if_false] at h ⊢
@@ -173,23 +184,27 @@ theorem flagged_of_trace (m i b : Bool) (t : Target) (a : String) (safe dynHas :
       cases ib <;> cases hg : k.tag.hasGet <;> cases hs : k.tag.hasSet <;>
         simp_all [GetResult.direct, GetResult.invoke]
 
-/-- FULL for instances, every flag value: with `allow_unsafe_executions = False`, getting a name
-from the filter of an instance and inferring it calls no user-defined `__get__` — property getter,
-data or non-data descriptor, on the class or any of its bases. -/
-theorem safe_no_user_get (m i b : Bool) (t : Target) (a : String)
+example : (pyGetattr
+    { isType := false, inst := some [], mro := [[⟨"p", .prop false, 2⟩]], metaMro := [] } "p").trace = [2] := by
+  decide
+
+/-- FULL for instances: with `allow_unsafe_executions = False`, getting a name from the filter of
+an instance and inferring it calls no user-defined `__get__` — property getter, data or non-data
+descriptor, on the class or any of its bases. -/
+theorem safe_no_user_get (t : Target) (a : String)
     (isInstance inDir dynHas annValues : Bool) (hi : t.isType = false) :
-    (filterGetInfer (cfgWith m i b) t a false isInstance inDir dynHas annValues).2 = [] := by
+    (filterGetInfer genCfg t a false isInstance inDir dynHas annValues).2 = [] := by
   unfold filterGetInfer
   simp only
   split
   · rename_i d hout
     simp only
     unfold filterGetOutcome at hout
-    have hf := flagged_of_trace m i b t a (!false) dynHas hi
-    generalize isAllowedGetattr (cfgWith m i b) t a (!false) dynHas = r at hout hf
+    have hf := flagged_of_trace t a (!false) dynHas hi
+    generalize isAllowedGetattr genCfg t a (!false) dynHas = r at hout hf
     obtain ⟨has, isDescr, ann⟩ := r
     simp only at hout hf
-    have hreal := get_real_only_if_plain m i b has isDescr ann annValues true isInstance inDir d hout
+    have hreal := get_real_only_if_plain has isDescr ann annValues true isInstance inDir d hout
     by_cases htr : (pyGetattr t a).trace = []
     · exact htr
     · have := hf htr
@@ -207,105 +222,117 @@ theorem unsafe_runs_getter_witness : (filterGetInfer genCfg
 
 /-! ### classes: attributes found on the class, its bases, the metaclass -/
 
-/-- whenever `type.__getattribute__` runs a user `__get__` for a class, and no user-`__get__`
-entry of the *metaclass* carries the name, `is_allowed_getattr` flags the name -/
-theorem flagged_of_trace_class (m i b : Bool) (t : Target) (a : String) (safe dynHas : Bool)
-    (hi : t.isType = true)
-    (hmeta : ∀ e, mroLookup t.metaMro a = some e → e.tag.userGet = false)
-    (h : (pyGetattr t a).trace ≠ []) :
-    (isAllowedGetattr (cfgWith m i b) t a safe dynHas).2.1 = true := by
-  have hprop : C13.allowedDescriptorAccess.contains "property" = false := by decide
-  have key : ∀ k : Entry, k.tag.userGet = true →
-      (cfgWith m i b).isDescriptorCond k.tag.hasGet (typeIn (cfgWith m i b).allowedDescr k.tag) = true := by
-    intro k hk
-    have h1 := Tag.hasGet_of_userGet hk
-    have h2 : typeIn C13.allowedDescriptorAccess k.tag = false := typeIn_of_userGet hk hprop
-    simp [cfgWith, C13.isDescriptorCond, h1, h2]
+/-- whenever `type.__getattribute__` runs a user `__get__` for a class — of an attribute of the
+class, of a base, or of the metaclass — `is_allowed_getattr` flags the name -/
+theorem flagged_of_trace_class (t : Target) (a : String) (safe dynHas : Bool)
+    (hi : t.isType = true) (h : (pyGetattr t a).trace ≠ []) :
+    (isAllowedGetattr genCfg t a safe dynHas).2.1 = true := by
+  have key := descriptorCond_of_userGet
   unfold pyGetattr pyGetattrType at h
   unfold isAllowedGetattr getattrStatic
   simp only [hi, if_true] at h ⊢
-  cases hk : mroLookup t.mro a with
+  cases hm : mroLookup t.metaMro a with
   | none =>
-    exfalso
-    cases hm : mroLookup t.metaMro a with
+    cases hk : mroLookup t.mro a with
     | none => simp [hk, hm, GetResult.miss] at h
-    | some me =>
-      have hu := hmeta me hm
+    | some k =>
       simp only [hk, hm] at h
-      cases hg : me.tag.hasGet <;> cases hs : me.tag.hasSet <;>
-        simp_all [GetResult.direct, GetResult.invoke]
-  | some k =>
-    by_cases hu : k.tag.userGetNoInstance = true
-    · have hkey := key k (Tag.userGet_of_userGetNoInstance hu)
-      have hg := Tag.hasGet_of_userGet (Tag.userGet_of_userGetNoInstance hu)
-      simp only
-      rw [if_pos hkey]
-    · exfalso
-      cases hm : mroLookup t.metaMro a with
-      | none =>
-        simp only [hk, hm] at h
+      by_cases hu : k.tag.userGetNoInstance = true
+      · have hkey := key k (Tag.userGet_of_userGetNoInstance hu)
+        simp only
+        rw [if_pos hkey]
+      · exfalso
         cases hg : k.tag.hasGet <;> simp_all [GetResult.direct, GetResult.invokeNoInstance]
-      | some me =>
-        have hu' := hmeta me hm
-        simp only [hk, hm] at h
-        cases hg : k.tag.hasGet <;> cases hg2 : me.tag.hasGet <;> cases hs : me.tag.hasSet <;>
-          simp_all [GetResult.direct, GetResult.invoke, GetResult.invokeNoInstance]
+  | some me =>
+    cases hk : mroLookup t.mro a with
+    | none =>
+      simp only [hk, hm] at h
+      by_cases hu : me.tag.userGet = true
+      · have hkey := key me hu
+        have hg := Tag.hasGet_of_userGet hu
+        simp only [Option.map_some]
+        rw [hg] at hkey ⊢
+        rw [if_pos hkey]
+      · exfalso
+        cases hg : me.tag.hasGet <;> cases hs : me.tag.hasSet <;>
+          simp_all [GetResult.direct, GetResult.invoke]
+    | some k =>
+      simp only [hk, hm] at h
+      cases hd : (me.tag.hasGet && me.tag.hasSet) with
+      | true =>
+        have hu : me.tag.userGet = true := by
+          by_cases hu : me.tag.userGet = true
+          · exact hu
+          · exfalso; simp_all [GetResult.invoke]
+        have hkey := key me hu
+        have hg := Tag.hasGet_of_userGet hu
+        rw [hg] at hkey
+        simp only [hd, if_true]
+        rw [if_pos hkey]
+      | false =>
+        simp only [hd, Bool.false_eq_true, if_false] at h ⊢
+        by_cases hu : k.tag.userGetNoInstance = true
+        · have hkey := key k (Tag.userGet_of_userGetNoInstance hu)
+          rw [if_pos hkey]
+        · exfalso
+          cases hg : k.tag.hasGet <;> simp_all [GetResult.direct, GetResult.invokeNoInstance]
 
-/- FULL (false on the code as it is, see the two witnesses below):
-   theorem safe_no_user_get_class (t : Target) (a : String) … (hi : t.isType = true) :
-     (filterGetInfer genCfg t a false isInstance inDir dynHas annValues).2 = []            -/
+example : (pyGetattr
+    { isType := true, inst := none, mro := [[⟨"x", .plain, 1⟩]], metaMro := [[⟨"mp", .prop false, 2⟩]] }
+    "mp").trace = [2] := by decide
 
-/-- PARTIAL for classes (every flag value): no user `__get__` runs in safe mode provided the name
-is not a user-`__get__` descriptor (property, data / non-data descriptor) **of the metaclass**.
-Attributes of the class itself and of its bases are covered at full strength. -/
-theorem safe_no_user_get_class_partial (m i b : Bool) (t : Target) (a : String)
-    (isInstance inDir dynHas annValues : Bool) (hi : t.isType = true)
-    (hmeta : ∀ e, mroLookup t.metaMro a = some e → e.tag.userGet = false) :
-    (filterGetInfer (cfgWith m i b) t a false isInstance inDir dynHas annValues).2 = [] := by
+/-- FULL for classes: no user `__get__` runs in safe mode, whether the name is an attribute of the
+class itself, of one of its bases, or a property / data / non-data descriptor **of the metaclass**
+(also one that shadows a class attribute of the same name). -/
+theorem safe_no_user_get_class (t : Target) (a : String)
+    (isInstance inDir dynHas annValues : Bool) (hi : t.isType = true) :
+    (filterGetInfer genCfg t a false isInstance inDir dynHas annValues).2 = [] := by
   unfold filterGetInfer
   simp only
   split
   · rename_i d hout
     simp only
     unfold filterGetOutcome at hout
-    have hf := flagged_of_trace_class m i b t a (!false) dynHas hi hmeta
-    generalize isAllowedGetattr (cfgWith m i b) t a (!false) dynHas = r at hout hf
+    have hf := flagged_of_trace_class t a (!false) dynHas hi
+    generalize isAllowedGetattr genCfg t a (!false) dynHas = r at hout hf
     obtain ⟨has, isDescr, ann⟩ := r
     simp only at hout hf
-    have hreal := get_real_only_if_plain m i b has isDescr ann annValues true isInstance inDir d hout
+    have hreal := get_real_only_if_plain has isDescr ann annValues true isInstance inDir d hout
     by_cases htr : (pyGetattr t a).trace = []
     · exact htr
     · have := hf htr
       simp [hreal.2.1] at this
   · rfl
 
-example : ∀ e, mroLookup [[⟨"__name__", .builtinDescr "getset_descriptor" true, 7⟩]] "__name__" = some e →
-    e.tag.userGet = false := by decide
+example : (filterGetInfer genCfg
+    { isType := true, inst := none, mro := [[⟨"x", .plain, 1⟩]], metaMro := [[⟨"mp", .prop false, 2⟩]] }
+    "x" false false true false false) = (.realName false, []) := by decide
 
-/-- counter-witness 1 (while `getattr_static` answers `is_get_descriptor = False` for every
-metaclass hit): a property of the metaclass, `A.mp` — safe mode produces a real name and
-inferring it runs the getter. -/
-theorem safe_no_user_get_class_counter_meta_property (i b : Bool) :
-    (filterGetInfer (cfgWith false i b)
-      { isType := true, inst := none, mro := [[⟨"x", .plain, 1⟩]], metaMro := [[⟨"mp", .prop false, 2⟩]] }
-      "mp" false false true false false) = (.realName false, [2]) := by
-  cases i <;> cases b <;> decide
+/-- instance or class: safe mode runs no user `__get__` through an attribute name -/
+theorem safe_no_user_get_any (t : Target) (a : String) (isInstance inDir dynHas annValues : Bool) :
+    (filterGetInfer genCfg t a false isInstance inDir dynHas annValues).2 = [] := by
+  cases hi : t.isType
+  · exact safe_no_user_get t a isInstance inDir dynHas annValues hi
+  · exact safe_no_user_get_class t a isInstance inDir dynHas annValues hi
 
-/-- once the metaclass hit reports its `__get__`, that input is refused … -/
-theorem meta_property_refused_when_flagged (i b : Bool) :
-    (filterGetInfer (cfgWith true i b)
+/-- a property of the metaclass, `A.mp`: refused in safe mode (empty name, nothing runs) -/
+theorem safe_no_user_get_class_meta_property_refused :
+    (filterGetInfer genCfg
       { isType := true, inst := none, mro := [[⟨"x", .plain, 1⟩]], metaMro := [[⟨"mp", .prop false, 2⟩]] }
       "mp" false false true false false) = (.emptyName, []) := by
-  cases i <;> cases b <;> decide
+  decide
 
-/-- counter-witness 2 (either value of the flag): a *data* descriptor of the metaclass that
-shadows a plain class attribute of the same name — the static lookup answers the class
-attribute, `getattr` runs the metaclass descriptor. -/
-theorem safe_no_user_get_class_counter_meta_shadow (m i b : Bool) :
-    (filterGetInfer (cfgWith m i b)
+/-- the former counter-witness: a *data* descriptor of the metaclass that shadows a plain class
+attribute of the same name — `getattr(A, 'p')` would run the metaclass descriptor (second line,
+unsafe mode); safe mode now answers an empty name and runs nothing. -/
+theorem safe_no_user_get_class_meta_shadow_refused :
+    (filterGetInfer genCfg
       { isType := true, inst := none, mro := [[⟨"p", .plain, 1⟩]], metaMro := [[⟨"p", .prop false, 2⟩]] }
-      "p" false false true false false) = (.realName false, [2]) := by
-  cases m <;> cases i <;> cases b <;> decide
+      "p" false false true false false) = (.emptyName, []) ∧
+    (filterGetInfer genCfg
+      { isType := true, inst := none, mro := [[⟨"p", .plain, 1⟩]], metaMro := [[⟨"p", .prop false, 2⟩]] }
+      "p" true false true false false) = (.realName true, [2]) := by
+  decide
 
 /-! ## item access and iteration -/
 
@@ -314,31 +341,32 @@ theorem allowed_getitem_types_are_builtin_containers :
 
 /-- FULL: in safe mode `py__simple_getitem__` subscripts the live object only if its exact type is
 one of the listed builtin containers, and never runs a user `__getitem__`. -/
-theorem safe_no_item_iter_getitem (m i b : Bool) (ty : Ty) :
-    (pySimpleGetitem (cfgWith m i b) ty true).2 = [] ∧
-    ((pySimpleGetitem (cfgWith m i b) ty true).1 = true →
+theorem safe_no_item_iter_getitem (ty : Ty) :
+    (pySimpleGetitem genCfg ty true).2 = [] ∧
+    ((pySimpleGetitem genCfg ty true).1 = true →
       ∃ n, ty = .builtin n ∧ n ∈ C13.allowedGetitemTypes ∧ n ∈ builtinContainers) := by
   cases ty with
   | builtin n =>
     by_cases hmem : n ∈ C13.allowedGetitemTypes
     · have hn := hmem
       refine ⟨?_, fun _ => ⟨n, rfl, hmem, allowed_getitem_types_are_builtin_containers n hmem⟩⟩
-      simp [pySimpleGetitem, cfgWith, C13.getitemRefuses, tyIn, hmem, subscriptEvents]
-    · simp [pySimpleGetitem, cfgWith, C13.getitemRefuses, tyIn, hmem]
-  | user u => simp [pySimpleGetitem, cfgWith, C13.getitemRefuses, tyIn]
+      simp [pySimpleGetitem, genCfg, C13.getitemRefuses, tyIn, hmem, subscriptEvents]
+    · simp [pySimpleGetitem, genCfg, C13.getitemRefuses, tyIn, hmem]
+  | user u => simp [pySimpleGetitem, genCfg, C13.getitemRefuses, tyIn]
 
 example : pySimpleGetitem genCfg (.builtin "dict") true = (true, []) := by decide
-example : pySimpleGetitem genCfg (.user ⟨1, true, false, false, false, false⟩) true = (false, []) := by decide
+example : pySimpleGetitem genCfg (.user ⟨1, .user, .absent, .absent, .absent, .absent⟩) true = (false, []) := by
+  decide
 /-- unsafe mode does run it (the events are not vacuous) -/
 theorem unsafe_getitem_witness :
-    pySimpleGetitem genCfg (.user ⟨1, true, false, false, false, false⟩) false = (true, [.getitem]) := by
+    pySimpleGetitem genCfg (.user ⟨1, .user, .absent, .absent, .absent, .absent⟩) false = (true, [.getitem]) := by
   decide
 
 /-- FULL: `MixedObject.py__simple_getitem__` reaches the live object only for the listed builtin
 types, in either mode -/
-theorem mixed_getitem_only_builtin (m i b : Bool) (ty : Ty) (allowUnsafe : Bool) :
-    (mixedSimpleGetitem (cfgWith m i b) ty allowUnsafe).2 = [] ∧
-    ((mixedSimpleGetitem (cfgWith m i b) ty allowUnsafe).1 = true →
+theorem mixed_getitem_only_builtin (ty : Ty) (allowUnsafe : Bool) :
+    (mixedSimpleGetitem genCfg ty allowUnsafe).2 = [] ∧
+    ((mixedSimpleGetitem genCfg ty allowUnsafe).1 = true →
       ∃ n, ty = .builtin n ∧ n ∈ C13.allowedGetitemTypes) := by
   cases ty with
   | builtin n =>
@@ -346,110 +374,113 @@ theorem mixed_getitem_only_builtin (m i b : Bool) (ty : Ty) (allowUnsafe : Bool)
     · have hn := hmem
       refine ⟨?_, fun _ => ⟨n, rfl, hmem⟩⟩
       cases allowUnsafe <;>
-        simp [mixedSimpleGetitem, pySimpleGetitem, cfgWith, C13.getitemRefuses,
+        simp [mixedSimpleGetitem, pySimpleGetitem, genCfg, C13.getitemRefuses,
           C13.mixedGetitemUsesCompiled, tyIn, hmem, subscriptEvents]
-    · simp [mixedSimpleGetitem, cfgWith, C13.mixedGetitemUsesCompiled, tyIn, hmem]
-  | user u => simp [mixedSimpleGetitem, cfgWith, C13.mixedGetitemUsesCompiled, tyIn]
+    · simp [mixedSimpleGetitem, genCfg, C13.mixedGetitemUsesCompiled, tyIn, hmem]
+  | user u => simp [mixedSimpleGetitem, genCfg, C13.mixedGetitemUsesCompiled, tyIn]
 
-/-- FULL (either mode — the function has no `safe` switch): `py__iter__list` iterates the live
-object only if its exact type is a listed builtin container; the only user code it can run is a
-user `__get__` met while fetching the attribute `__iter__` itself. -/
-theorem safe_no_item_iter_iterlist (m i b : Bool) (ty : Ty) (ia : GetResult) (ann : Bool) :
-    (∀ ev ∈ (pyIterList (cfgWith m i b) ty ia ann).2, ∃ id ∈ ia.trace, ev = .get id) ∧
-    ((pyIterList (cfgWith m i b) ty ia ann).1 = .items →
+example : mixedSimpleGetitem genCfg (.builtin "list") true = (true, []) := by decide
+
+/-- FULL (either mode — the function has no `safe` switch): `py__iter__list` runs no user code at
+all — `__iter__` is looked up statically on the type and only asked for its annotation — and it
+iterates the live object only if its exact type is a listed builtin container. -/
+theorem safe_no_item_iter_iterlist (ty : Ty) (it : Slot) (ann : Bool) :
+    (pyIterList genCfg ty it ann).2 = [] ∧
+    ((pyIterList genCfg ty it ann).1 = .items →
       ∃ n, ty = .builtin n ∧ n ∈ C13.allowedGetitemTypes) := by
   unfold pyIterList
-  cases hf : ia.found with
-  | none => simp
-  | some e =>
-    cases ann
-    · cases ty with
-      | builtin n =>
-        by_cases hmem : n ∈ C13.allowedGetitemTypes
-        · have hn := hmem
-          simp [cfgWith, C13.iterListRefuses, tyIn, hmem, loopEvents]
-        · simp [cfgWith, C13.iterListRefuses, tyIn, hmem]
-      | user u => simp [cfgWith, C13.iterListRefuses, tyIn]
-    · simp
+  cases ann
+  · cases ty with
+    | builtin n =>
+      by_cases hmem : n ∈ C13.allowedGetitemTypes
+      · have hn := hmem
+        cases it <;> simp [genCfg, C13.iterListRefuses, tyIn, hmem, loopEvents]
+      · cases it <;> simp [genCfg, C13.iterListRefuses, tyIn, hmem]
+    | user u => cases it <;> simp [genCfg, C13.iterListRefuses, tyIn]
+  · cases it <;> simp
 
-example : pyIterList genCfg (.builtin "list") ⟨some ⟨"__iter__", .plain, 1⟩, true, []⟩ false = (.items, []) := by
+example : pyIterList genCfg (.builtin "list") (.builtin "wrapper_descriptor") false = (.items, []) := by
   decide
-example : pyIterList genCfg (.user ⟨1, false, true, true, false, false⟩)
-    ⟨some ⟨"__iter__", .plain, 1⟩, true, []⟩ false = (.refused, []) := by decide
+example : pyIterList genCfg (.user ⟨1, .absent, .user, .user, .absent, .absent⟩) .user false = (.refused, []) := by
+  decide
 
-/- FULL (false on the code as it is, see witness):
-   theorem safe_no_item_iter_pyiter (ty : Ty) (ia : GetResult) (ann : Bool) :
-     ∀ ev ∈ compiledPyIter genCfg ty ia ann, ev.isProtocol = false                         -/
+/-- FULL: `CompiledValue.py__iter__` = `has_iter()` + `py__iter__list()` runs no user `__iter__` /
+`__next__` / `__getitem__` and no user `__get__` — for every type, whatever `__iter__` is. -/
+theorem safe_no_item_iter_pyiter (ty : Ty) (it : Slot) (ann : Bool) :
+    compiledPyIter genCfg ty it ann = [] :=
+  (safe_no_item_iter_iterlist ty it ann).1
 
-/-- `CompiledValue.py__iter__` = `has_iter()` + `py__iter__list()`.  If `has_iter` does not call
-`iter(obj)`, iterating a compiled value runs no user `__iter__` / `__next__` / `__getitem__`. -/
-theorem safe_no_item_iter_pyiter_of_static_has_iter (m b : Bool) (ty : Ty) (ia : GetResult) (ann : Bool) :
-    ∀ ev ∈ compiledPyIter (cfgWith m false b) ty ia ann, ev.isProtocol = false := by
-  intro ev hev
-  unfold compiledPyIter hasIter at hev
-  simp only [cfgWith, Bool.false_eq_true, if_false, List.nil_append] at hev
-  obtain ⟨id, _, rfl⟩ := (safe_no_item_iter_iterlist m false b ty ia ann).1 ev hev
-  rfl
+/-- the former counter-witness: `for x in obj` on an instance of a class with a user `__iter__`
+(and `__next__`) — `has_iter` answers `True` without calling anything, `py__iter__list` refuses,
+although a real loop over the object would run both methods. -/
+theorem safe_no_item_iter_pyiter_user_iter_not_run :
+    compiledPyIter genCfg (.user ⟨1, .absent, .user, .user, .absent, .absent⟩) .user false = [] ∧
+    hasIter .user .absent = true ∧
+    loopEvents (.user ⟨1, .absent, .user, .user, .absent, .absent⟩) = [.iter, .next] := by
+  decide
 
-/-- PARTIAL for the code as it is (`has_iter` calls `iter(obj)`): holds for objects whose type
-has no user-defined `__iter__`. -/
-theorem safe_no_item_iter_pyiter_partial (m i b : Bool) (ty : Ty) (ia : GetResult) (ann : Bool)
-    (h : iterCallEvents ty = []) :
-    ∀ ev ∈ compiledPyIter (cfgWith m i b) ty ia ann, ev.isProtocol = false := by
-  intro ev hev
-  unfold compiledPyIter hasIter at hev
-  rw [h, List.append_nil] at hev
-  rcases List.mem_append.mp hev with h1 | h2
-  · split at h1
-    · obtain ⟨id, _, rfl⟩ := List.mem_map.mp h1
-      rfl
-    · cases h1
-  · obtain ⟨id, _, rfl⟩ := (safe_no_item_iter_iterlist m i b ty ia ann).1 ev h2
-    rfl
+/-- what `has_iter` answers: `__iter__` on the type (unless it is `None`), else the sequence
+protocol (`__getitem__`); an instance attribute or `__getattr__` play no role (they are not part
+of the model's input at all). -/
+theorem has_iter_protocols (it gi : Slot) :
+    hasIter it gi = ((it ≠ .absent ∧ it ≠ .noneVal) ∨ (it = .absent ∧ gi ≠ .absent) : Bool) := by
+  cases it <;> cases gi <;> simp [hasIter]
 
-/-- counter-witness while `has_iter` calls `iter(obj)`: `for x in obj` on an instance of a class
-with a user `__iter__` runs it, whatever the mode. -/
-theorem safe_no_item_iter_pyiter_counter (m b : Bool) :
-    compiledPyIter (cfgWith m true b) (.user ⟨1, false, true, false, false, false⟩)
-      ⟨some ⟨"__iter__", .builtinDescr "function" false, 5⟩, true, []⟩ false = [.iter] := by
-  cases m <;> cases b <;> decide
+example : hasIter .absent .user = true ∧ hasIter .noneVal .user = false ∧ hasIter .absent .absent = false := by
+  decide
 
-/- FULL (false on the code as it is, see witness):
-   theorem safe_no_bool_len (ty : Ty) : pyBool genCfg ty = []                                -/
+/-- FULL: in safe mode `py__bool__` runs no user `__bool__` / `__len__`; it calls `bool(obj)`
+only when the method `bool()` would use is a builtin one (slot wrapper) or there is none. -/
+theorem safe_no_bool_len (ty : Ty) :
+    (pyBool genCfg ty true).2 = [] ∧
+    ((pyBool genCfg ty true).1 = true → boolCallEvents ty = []) := by
+  have key : hasBuiltinBool genCfg ty = true → boolCallEvents ty = [] := by
+    cases ty with
+    | builtin n => intro _; rfl
+    | user u =>
+      obtain ⟨id, gi, it, nx, b, l⟩ := u
+      cases b <;> cases l <;>
+        simp [hasBuiltinBool, genCfg, C13.boolLookupOrder, C13.builtinMethodTypes, Ty.slot,
+          boolCallEvents, Slot.runsUser]
+  unfold pyBool
+  cases hb : hasBuiltinBool genCfg ty
+  · simp [genCfg, C13.boolRefuses]
+  · simp [genCfg, C13.boolRefuses, key hb]
 
-theorem safe_no_bool_len_of_guarded (m i : Bool) (ty : Ty) : pyBool (cfgWith m i false) ty = [] := by
-  simp [pyBool, cfgWith]
+example : pyBool genCfg (.builtin "list") true = (true, []) := by decide
+/-- a subclass of a builtin container inherits the builtin `__len__`: still evaluated -/
+example : pyBool genCfg (.user ⟨1, .absent, .absent, .absent, .absent, .builtin "wrapper_descriptor"⟩) true
+    = (true, []) := by decide
+/-- an object with neither method is true without running anything -/
+example : pyBool genCfg (.user ⟨1, .absent, .absent, .absent, .absent, .absent⟩) true = (true, []) := by decide
 
-theorem safe_no_bool_len_partial (m i b : Bool) (ty : Ty) (h : boolCallEvents ty = []) :
-    pyBool (cfgWith m i b) ty = [] := by
-  unfold pyBool; split <;> simp [h]
-
-example : boolCallEvents (.builtin "list") = [] := rfl
-
-/-- counter-witness while `py__bool__` is `bool(obj)`: `obj or 1` / `if obj:` run a user
-`__bool__` (or `__len__`). -/
-theorem safe_no_bool_len_counter (m i : Bool) :
-    pyBool (cfgWith m i true) (.user ⟨1, false, false, false, true, false⟩) = [.bool] ∧
-    pyBool (cfgWith m i true) (.user ⟨1, false, false, false, false, true⟩) = [.len] := by
-  cases m <;> cases i <;> decide
+/-- the former counter-witnesses: `obj or 1` / `if obj:` on an object with a user `__bool__`
+(first), a user `__len__` and no `__bool__` (second) — refused in safe mode (`None`: unknown);
+unsafe mode still evaluates `bool(obj)` and runs them (third, fourth). -/
+theorem safe_no_bool_len_user_bool_len_not_run :
+    pyBool genCfg (.user ⟨1, .absent, .absent, .absent, .user, .absent⟩) true = (false, []) ∧
+    pyBool genCfg (.user ⟨1, .absent, .absent, .absent, .absent, .user⟩) true = (false, []) ∧
+    pyBool genCfg (.user ⟨1, .absent, .absent, .absent, .user, .absent⟩) false = (true, [.bool]) ∧
+    pyBool genCfg (.user ⟨1, .absent, .absent, .absent, .absent, .user⟩) false = (true, [.len]) := by
+  decide
 
 /-! ## completions are a superset of `dir(obj)` -/
 
 /-- FULL, either mode, instance or not: every name of `dir(obj)` is offered by
 `CompiledValueFilter.values()` — the table can empty a name, it never drops one. -/
-theorem dir_superset (m i b : Bool) (infos : List DirInfo) (allowUnsafe isInstance : Bool) :
-    ∀ info ∈ infos, info.name ∈ filterValues (cfgWith m i b) infos allowUnsafe isInstance := by
+theorem dir_superset (infos : List DirInfo) (allowUnsafe isInstance : Bool) :
+    ∀ info ∈ infos, info.name ∈ filterValues genCfg infos allowUnsafe isInstance := by
   intro info hmem
   unfold filterValues
   rw [List.mem_flatMap]
   refine ⟨info, hmem, ?_⟩
   cases h1 : info.has <;> cases h2 : info.isDescr <;> cases h3 : info.annPresent <;>
     cases h4 : info.annValues <;> cases allowUnsafe <;> cases isInstance <;>
-    simp [filterGet, cfgWith, C13.getAbsentCond, C13.getEmptyCond, C13.getNotInDirCond]
+    simp [filterGet, genCfg, C13.getAbsentCond, C13.getEmptyCond, C13.getNotInDirCond]
 
 /-- … and offers nothing else -/
-theorem values_subset_dir (m i b : Bool) (infos : List DirInfo) (allowUnsafe isInstance : Bool) :
-    ∀ n ∈ filterValues (cfgWith m i b) infos allowUnsafe isInstance, n ∈ infos.map (·.name) := by
+theorem values_subset_dir (infos : List DirInfo) (allowUnsafe isInstance : Bool) :
+    ∀ n ∈ filterValues genCfg infos allowUnsafe isInstance, n ∈ infos.map (·.name) := by
   intro n hn
   unfold filterValues at hn
   rw [List.mem_flatMap] at hn
@@ -460,34 +491,5 @@ theorem values_subset_dir (m i b : Bool) (infos : List DirInfo) (allowUnsafe isI
 
 example : filterValues genCfg [⟨"p", true, true, false, false⟩, ⟨"x", true, false, false, false⟩] false true
     = ["p", "x"] := by decide
-
-/-! ## the same, spelled out for the source as it is (`genCfg`) -/
-
-theorem safe_no_user_get_gen (t : Target) (a : String) (isInstance inDir dynHas annValues : Bool)
-    (hi : t.isType = false) :
-    (filterGetInfer genCfg t a false isInstance inDir dynHas annValues).2 = [] :=
-  safe_no_user_get _ _ _ t a isInstance inDir dynHas annValues hi
-
-theorem safe_no_user_get_class_partial_gen (t : Target) (a : String)
-    (isInstance inDir dynHas annValues : Bool) (hi : t.isType = true)
-    (hmeta : ∀ e, mroLookup t.metaMro a = some e → e.tag.userGet = false) :
-    (filterGetInfer genCfg t a false isInstance inDir dynHas annValues).2 = [] :=
-  safe_no_user_get_class_partial _ _ _ t a isInstance inDir dynHas annValues hi hmeta
-
-theorem safe_no_item_iter_gen (ty : Ty) (ia : GetResult) (ann : Bool) :
-    (pySimpleGetitem genCfg ty true).2 = [] ∧
-    ((pySimpleGetitem genCfg ty true).1 = true → ∃ n, ty = .builtin n ∧ n ∈ C13.allowedGetitemTypes) ∧
-    (∀ ev ∈ (pyIterList genCfg ty ia ann).2, ∃ id ∈ ia.trace, ev = .get id) ∧
-    ((pyIterList genCfg ty ia ann).1 = .items → ∃ n, ty = .builtin n ∧ n ∈ C13.allowedGetitemTypes) := by
-  have h1 := safe_no_item_iter_getitem C13.metaHitReportsGet C13.hasIterExecutes C13.boolExecutes ty
-  have h2 := safe_no_item_iter_iterlist C13.metaHitReportsGet C13.hasIterExecutes C13.boolExecutes ty ia ann
-  refine ⟨h1.1, ?_, h2.1, h2.2⟩
-  intro h
-  obtain ⟨n, hn, hm, _⟩ := h1.2 h
-  exact ⟨n, hn, hm⟩
-
-theorem dir_superset_gen (infos : List DirInfo) (allowUnsafe isInstance : Bool) :
-    ∀ info ∈ infos, info.name ∈ filterValues genCfg infos allowUnsafe isInstance :=
-  dir_superset _ _ _ infos allowUnsafe isInstance
 
 end JediModel.Props.C13
